@@ -202,7 +202,8 @@ def ker_consist(ctx):
                % names[k], f=f, node=node, key='vel[%d]' % k,
                why='first-order part of the %s velocity update differs from the navigation '
                    'equation assembled from earth.rate_n/curvature_matrix/gravity_n '
-                   '(zeroth order ok: %s)' % (names[k], ok0))
+                   '(zeroth order ok: %s); if a GEO-* rule fails as well, the earth function '
+                   'named there is the deviating side, otherwise the kernel' % (names[k], ok0))
     # ---- position: sibling transform.perturb_lla(lla, V*dt)
     pl = ctx.repo.function('transform.perturb_lla')
     try:
